@@ -289,6 +289,7 @@ pub fn gen_c37(seed: u64, thorough: bool) -> Scenario {
     profile: "C37/events".into(),
     config,
     ops,
+    server: None,
   }
 }
 
